@@ -398,11 +398,43 @@ def judge_proto(pm, pimpls):
     return fails
 
 
+def private_harness(workdir):
+    import shutil
+    dst = os.path.join(workdir, "h-c12-run")
+    last = None
+    for _ in range(4):
+        src = vlib.go_build("c12")
+        try:
+            shutil.copy2(src, dst)
+            return dst
+        except OSError as e:
+            last = e
+            time.sleep(0.5)
+    raise vlib.BuildError("harness binary disappeared while copying: %s" % last)
+
+
+def private_cli(workdir):
+    """cmd/bondgo built from the tree, copied into this run's scratch directory: other checks rebuild
+    (delete + build) the shared .build/bin/bondgo concurrently"""
+    import shutil
+    dst = os.path.join(workdir, "bondgo-cli")
+    last = None
+    for _ in range(4):
+        src = vlib.go_build_repo("bondgo")
+        try:
+            shutil.copy2(src, dst)
+            return dst
+        except OSError as e:
+            last = e
+            time.sleep(0.5)
+    raise vlib.BuildError("cmd/bondgo binary disappeared while copying: %s" % last)
+
+
 def run(rep):
     thorough = rep.tier == "thorough"
-    hbin = vlib.go_build("c12")
-    bondgo = vlib.go_build_repo("bondgo")
+    t_phase = {"start": time.monotonic()}
     pr = vlib.prove(PROP, MODULES, exes=[EXE], leanchecker=thorough)
+    t_phase["proved"] = time.monotonic()
     rep.add_proof(pr, "lake build BMV.Props.C12 && lake env lean <#audit_module BMV.Props.C12>"
                   + (" && lake env leanchecker BMV.Props.C12" if thorough else ""),
                   ["BMV.BondgoProto / BMV.Bondgo are hand-written models of pkg/bondgo (protocol; compiler core subset), tied by correspondence only",
@@ -423,6 +455,8 @@ def run(rep):
     ]
     known = {f.get("id"): f for f in vlib.load_known_findings(PROP)}
     workdir = vlib.scratch_dir("c12-%d%s" % (rep.seed, vlib._REPO_TAG))
+    hbin = private_harness(workdir)
+    bondgo = private_cli(workdir)
     for f in os.listdir(workdir):
         if f.endswith(".go") or f.endswith(".asm"):
             os.remove(os.path.join(workdir, f))
@@ -477,8 +511,9 @@ def run(rep):
             k0 = sorted(acts)[0]
             samples.append({"protocol_scenario": acts[k0], "impl": pimpl.get(k0, [])[:2], "model": pms.get(k0)})
 
+        t_phase["protocol"] = time.monotonic()
         # ---- 3. generated programs
-        n_prog = 600 if thorough else 110
+        n_prog = 600 if thorough else 90
         gendir = os.path.join(workdir, "gen")
         os.makedirs(gendir, exist_ok=True)
         hl = run_harness(hbin, ["gen", str(n_prog), gendir, "30"], timeout=3000)
@@ -520,6 +555,7 @@ def run(rep):
                             "machine_with_intended_je": wit.irun})
             add_finding(KF_JE, "je-stub", obj)
 
+        t_phase["programs"] = time.monotonic()
         # ---- 4. the real CLI
         ids = [cid for cid in sorted(cases, key=lambda x: int(x)) if cases[cid].impl is not None and int(cid) < 100000]
         pick = ids[:: max(1, len(ids) // (12 if thorough else 4))][: (12 if thorough else 4)]
@@ -543,6 +579,9 @@ def run(rep):
                                 {"property": PROP, "kind": "nondeterministic-output", "go": go_source(gendir, cid),
                                  "w": c.meta.get("w"), "VERIF_SCHED_SEED": sd, "cli_asm": txt, "inprocess_asm": c.impl})
 
+    t_phase["cli"] = time.monotonic()
+    ks = list(t_phase)
+    rep.coverage["phase_seconds"] = {ks[i]: round(t_phase[ks[i]] - t_phase[ks[i - 1]], 1) for i in range(1, len(ks))}
     rep.coverage.update({
         "evaluations": stats["programs"] + stats["proto_scenarios"],
         "distinct_nontrivial": len(distinct),
@@ -636,6 +675,9 @@ def handle_case(c, src, corpus_case, twin, add_finding, stats, distinct):
     case = corpus_case or {"kind": "program", "w": c.meta.get("w"), "decls": c.meta.get("decls"),
                            "body": (c.prog or "").split(" body=", 1)[-1], "go": src,
                            "salt": c.meta.get("salt", 0), "nin": c.meta.get("nin", 0), "nout": c.meta.get("nout", 1)}
+    for kind in set(kinds):
+        fk = stats.setdefault("failing_programs_by_kind", {})
+        fk[kind + ("(corpus)" if corpus_case is not None else "")] = fk.get(kind + ("(corpus)" if corpus_case is not None else ""), 0) + 1
     for kind, det in fails:
         obj = {"property": PROP, "kind": kind, "go": src, "w": c.meta.get("w"), "detail": det, "case": case}
         if kind == "hang":
@@ -678,11 +720,11 @@ def _has_deep_incdec(body):
 
 
 def replay(rep, path):
-    hbin = vlib.go_build("c12")
     vlib.lake_build([EXE])
     obj = json.load(open(path))
     case = obj.get("case") or {}
-    workdir = vlib.scratch_dir("c12-replay")
+    workdir = vlib.scratch_dir("c12-replay-%d" % os.getpid())
+    hbin = private_harness(workdir)
     # a replay re-runs one stored case; no proof obligation is re-checked
     rep.level = "other"
     rep.coverage["explanation"] = "replay of one stored case against the current tree (correspondence only)" 
@@ -714,7 +756,7 @@ def replay(rep, path):
         c = run_program_case(hbin, case, workdir, "999999")
         handle_case(c, case["go"], case, None, add_finding, stats, distinct)
         if obj.get("VERIF_SCHED_SEED") is not None:
-            bondgo = vlib.go_build_repo("bondgo")
+            bondgo = private_cli(workdir)
             srcp = os.path.join(workdir, "p999999.go")
             st, txt, det = run_cli(bondgo, srcp, case.get("w", 8), obj["VERIF_SCHED_SEED"], obj.get("GOMAXPROCS", 1), workdir)
             if st == "hang":
